@@ -433,6 +433,20 @@ where
 fn het<S, O>(case: &Value) -> Value
 where
     S: Canon + Clone + Merge<O> + Merge<S> + PartialOrd<O> + PartialOrd<S> + PartialEq<O> + PartialEq<S> + LatticeFrom<O>,
+    O: Canon + Clone + IsBot + IsTop,
+{
+    let b = O::from_json(&case["b"]);
+    let mut v = het_nb::<S, O>(case);
+    // is_bot / is_top asked of the other representation itself
+    v["bot_b"] = json!(b.is_bot());
+    v["top_b"] = json!(b.is_top());
+    v
+}
+
+/// as `het`, for other-representations that do not implement IsBot (VecMap-backed maps)
+fn het_nb<S, O>(case: &Value) -> Value
+where
+    S: Canon + Clone + Merge<O> + Merge<S> + PartialOrd<O> + PartialOrd<S> + PartialEq<O> + PartialEq<S> + LatticeFrom<O>,
     O: Canon + Clone,
 {
     let a = S::from_json(&case["a"]);
@@ -451,6 +465,7 @@ where
         "hom_ab": [y.to_json(), ch2],
         "hom_cmp_ab": ord_json(a.partial_cmp(&conv)),
         "hom_eq_ab": a == conv,
+        "bot_b": Value::Null, "top_b": Value::Null,
     })
 }
 
@@ -475,16 +490,28 @@ impl Registry {
     fn add_het<S, O>(&mut self, rust: &str)
     where
         S: Canon + Clone + Merge<O> + Merge<S> + PartialOrd<O> + PartialOrd<S> + PartialEq<O> + PartialEq<S> + LatticeFrom<O>,
-        O: Canon + Clone,
+        O: Canon + Clone + IsBot + IsTop,
     {
         // name = "<self code> <- <other code>@<rust pair>"
         let n = format!("{} <- {}@{}", S::name(), O::name(), rust);
         self.het_names.push(n.clone());
         self.het.insert(n, het::<S, O>);
     }
+    fn add_het_nb<S, O>(&mut self, rust: &str)
+    where
+        S: Canon + Clone + Merge<O> + Merge<S> + PartialOrd<O> + PartialOrd<S> + PartialEq<O> + PartialEq<S> + LatticeFrom<O>,
+        O: Canon + Clone,
+    {
+        let n = format!("{} <- {}@{}", S::name(), O::name(), rust);
+        self.het_names.push(n.clone());
+        self.het.insert(n, het_nb::<S, O>);
+    }
 }
 macro_rules! reg {
     ($r:expr; $($t:ty),* $(,)?) => { $( $r.add::<$t>(stringify!($t)); )* };
+}
+macro_rules! reg_het_nb {
+    ($r:expr; $(($s:ty, $o:ty)),* $(,)?) => { $( $r.add_het_nb::<$s, $o>(stringify!(($s, $o))); )* };
 }
 macro_rules! reg_het {
     ($r:expr; $(($s:ty, $o:ty)),* $(,)?) => { $( $r.add_het::<$s, $o>(stringify!(($s, $o))); )* };
@@ -509,14 +536,19 @@ fn registry() -> Registry {
     reg_het!(r;
         (SH, SB), (SB, SH), (SH, SS), (SH, SO), (SH, SA2), (SB, SA3), (SB, SS),
         (MH<Max<u8>>, MB<Max<u8>>), (MB<Max<u8>>, MH<Max<u8>>), (MH<Max<u8>>, MS<Max<u8>>),
-        (MH<Max<u8>>, MO<Max<u8>>), (MH<Max<u8>>, MVec<Max<u8>>), (MB<Max<u8>>, MA2<Max<u8>>),
-        (MH<SH>, MS<SS>), (MH<SH>, MB<SB>), (MH<SB>, MVec<SA2>), (MH<MH<SH>>, MS<MS<SS>>),
-        (MH<WithBot<SH>>, MO<WithBot<SS>>),
+        (MH<Max<u8>>, MO<Max<u8>>), (MB<Max<u8>>, MA2<Max<u8>>),
+        (MH<SH>, MS<SS>), (MH<SH>, MB<SB>), (MH<MH<SH>>, MS<MS<SS>>),
+        (MH<WithBot<SH>>, MO<WithBot<SS>>), (MH<SH>, MS<SO>), (MB<SB>, MO<SA2>), (WithBot<SH>, WithBot<SO>),
+        (WithBot<MH<SH>>, WithBot<MO<SO>>), (VecUnion<SH>, VecUnion<SO>), (Pair<SH, SB>, Pair<SO, SS>),
+        (WithBot<WithBot<SH>>, WithBot<WithBot<SO>>),
         (WithBot<SH>, WithBot<SB>), (WithBot<SH>, WithBot<SS>), (WithTop<SH>, WithTop<SO>),
         (WithBot<MH<SH>>, WithBot<MS<SS>>),
         (Pair<SH, MH<Max<u8>>>, Pair<SB, MB<Max<u8>>>), (Pair<SH, SB>, Pair<SS, SA2>),
         (VecUnion<SH>, VecUnion<SB>), (VecUnion<MH<SH>>, VecUnion<MS<SS>>),
         (DomPair<Max<u8>, SH>, DomPair<Max<u8>, SS>), (DomPair<Max<u64>, MH<SH>>, DomPair<Max<u64>, MB<SB>>),
+    );
+    reg_het_nb!(r;
+        (MH<Max<u8>>, MVec<Max<u8>>), (MH<SB>, MVec<SA2>), (MB<SH>, MVec<SO>),
     );
     reg!(r;
         (), Max<u8>, Max<u64>, Max<bool>, Min<u8>, Min<u64>, Min<bool>, Conflict<K>,
